@@ -40,6 +40,7 @@ theorem decodeEntry_encodeEntry (e : Entry) (rest : Bytes) (he : Encodable e) :
     | nil => simp at hk0
     | cons _ _ => rfl
   unfold decodeEntry
+  simp only [shorterThan_eq, decide_eq_true_eq]
   rw [if_neg (by rw [hlen]; omega)]
   simp only [t1, hk2, d1, t2, d2, t3, hd4, d3, t4, hne]
   rw [if_neg (by rw [hlen]; omega)]
@@ -151,9 +152,10 @@ theorem readNextBlock_encodeBlock_gen (cfg : Cfg) (codec : Codec) (crc : Checksu
   have hcond : (decide (0 < c.length) && (c ++ rest).isEmpty) = false := by
     cases c <;> simp
   unfold readNextBlock
+  simp only [shorterThan_eq, decide_eq_true_eq]
   rw [e0]
   rw [if_neg (by simp [encodeBlockHeader_length])]
-  simp only
+  try simp only
   rw [decodeBlockHeader_encode _ _ hc (by simp; omega) hcount hcrc (by simp)]
   rw [drop_append_len _ _ 16 (encodeBlockHeader_length _)]
   simp only [hcond, Bool.false_eq_true, if_false]
@@ -184,6 +186,7 @@ theorem readNextBlock_encodeBlock (cfg : Cfg) (codec : Codec) (crc : Checksum) (
 theorem decodeEntry_zeroKeyLen (op : UInt8) (rest : Bytes) (h : 4 ≤ rest.length) :
     decodeEntry (op :: 0 :: 0 :: rest) = .error .emptyKey := by
   unfold decodeEntry
+  simp only [shorterThan_eq, decide_eq_true_eq]
   rw [if_neg (by simp; omega)]
   simp only [List.take_succ_cons, List.take_zero, unle]
   have : (0 : UInt8).toNat = 0 := rfl
